@@ -24,7 +24,7 @@ class GenError(Exception):
 DROP_ATTRS = ('non_exhaustive', 'derive', 'serde', 'allow', 'inline', 'repr', 'unsafe(no_mangle)', 'no_mangle', 'must_use',
               'cfg_attr', 'doc', 'wasm_bindgen', 'deprecated', 'default')
 HEADER_KW = ('requires', 'ensures', 'decreases', 'returns', 'no_unwind', 'opens_invariants', 'recommends')
-CLAUSE_KW = HEADER_KW + ('exit', 'closure', 'statelift', 'attr', 'loop', 'forlabel', 'after', 'before', 'opt', 'replace', 'outline', 'note', 'entry', 'loopbefore', 'loophead', 'looptail', 'loopend')
+CLAUSE_KW = HEADER_KW + ('exit', 'closure', 'statelift', 'forlift', 'attr', 'loop', 'forlabel', 'after', 'before', 'opt', 'replace', 'outline', 'note', 'entry', 'loopbefore', 'loophead', 'looptail', 'loopend')
 
 
 @dataclass
@@ -274,6 +274,7 @@ class Unit:
     def generate(self):
         lines = self.load_tpl(self.tpl_path)
         self.tpl_text_all = '\n'.join(l for _, _, l in lines if not l.lstrip().startswith('//@'))
+        self.tpl_text_full = '\n'.join(l for _, _, l in lines)
         i = 0
         while i < len(lines):
             path, ln, l = lines[i]
@@ -337,6 +338,18 @@ class Unit:
     def emit_strlits(self, path, ln):
         """R4 companion: for every ASCII string literal seen in extracted text, a *proved* lemma giving its chars and UTF-8 bytes"""
         self.emit('pub proof fn lit_empty()\n    ensures ""@.len() == 0, vstd::utf8::encode_utf8(""@).len() == 0,\n{\n    reveal_strlit("");\n    assert(""@ =~= Seq::<char>::empty());\n    assert(vstd::utf8::is_ascii_chars(""@));\n    vstd::utf8::is_ascii_chars_encode_utf8(""@);\n}\n', ('tpl', path, ln))
+        # literals the unit's proof text names through `lit_<..>()` keep their lemma even when the code no longer contains them (a changed
+        # literal in the code must be judged by the contract, not rejected for a missing helper lemma)
+        for mm in re.finditer(r'\blit_(x[0-9a-f]+|[A-Za-z0-9_]+)\(\)', self.tpl_text_full):
+            nm = mm.group(1)
+            if nm == 'empty':
+                continue
+            try:
+                v = bytes.fromhex(nm[1:]).decode() if re.fullmatch(r'x(?:[0-9a-f]{2})+', nm) else nm
+            except Exception:
+                continue
+            if v and all(32 <= ord(ch) < 127 for ch in v) and v not in self.literals.values():
+                self.literals['"%s"' % v.replace('\\', '\\\\').replace('"', '\\"')] = v
         for tok, v in sorted(self.literals.items()):
             name = 'lit_' + (v if re.fullmatch(r'[A-Za-z0-9_]+', v) else 'x' + v.encode().hex())
             chars = ', '.join("'%s'" % (ch if ch not in "'\\" else '\\' + ch) for ch in v)
@@ -615,6 +628,44 @@ class Unit:
                 edits.append(Edit(toks[endk].start, toks[endk].start, ' }, ' + ghost, ('spec', tplpath, c[2]), prio=-5))
                 rec.n_hints += 1
                 cnt('R13-statelift')
+
+        # R14 (forlift): `for PAT in RECV.METHOD() { BODY }` (METHOD = values_mut / iter_mut of a container vstd gives no iterator model for)
+        # whose body assigns ONE captured local VAR becomes `HELPER(&mut RECV, &mut VAR, |PAT: .., vf_st: ..| { BODY[VAR := (*vf_st)] }, GHOST);`.
+        # HELPER's body is `for v in m.METHOD() { f(v, st) }`, so the two forms are beta-equivalent; BODY stays the real code, verified in place.
+        for c in clauses:
+            if c[0] == 'forlift':
+                mm = re.match(r'`(.*?)`(?:#(\d+))?\s+var\s+`(.*?)`\s+helper\s+`(.*?)`\s+header\s+`(.*?)`\s+ghost\s+`(.*?)`\s*$', c[1], re.S)
+                if not mm:
+                    raise GenError('%s:%d bad forlift directive' % (tplpath, c[2]))
+                old, ordn, var, helper, header, ghost = mm.groups()
+                hits = list(flex_regex(old).finditer(verbatim))
+                if ordn is not None:
+                    hits = hits[int(ordn):int(ordn) + 1]
+                if len(hits) != 1:
+                    self.hints_dropped.append('%s :: %s: forlift anchor `%s` matches %d times' % (rel, selector, old, len(hits)))
+                    continue
+                h = hits[0]
+                mtext = verbatim[h.start():h.end()]
+                m2 = re.match(r'for\s+\w+\s+in\s+(.*?)\.(values_mut|iter_mut)\(\)\s*\{$', mtext, re.S)
+                if not m2:
+                    raise GenError('%s:%d forlift anchor must be `for PAT in RECV.values_mut() {` or `... .iter_mut() {`' % (tplpath, c[2]))
+                recv = m2.group(1).strip()
+                a0 = s_off + h.start()
+                hend = s_off + h.end()
+                k = item.start
+                while k < item.end and toks[k].end < hend:
+                    k += 1
+                if toks[k].text != '{' or k not in src.br:
+                    self.hints_dropped.append('%s :: %s: forlift `%s`: loop body not found' % (rel, selector, old))
+                    continue
+                endk = src.br[k]
+                edits.append(Edit(a0, toks[k].start, '%s(&mut %s, &mut %s, %s ' % (helper, recv, var, header), ('spec', tplpath, c[2]), prio=5))
+                for j in range(k + 1, endk):
+                    if toks[j].kind == 'ident' and toks[j].text == var and not (j > 0 and toks[j - 1].text == '.'):
+                        edits.append(Edit(toks[j].start, toks[j].end, '(*vf_st)', None))
+                edits.append(Edit(toks[endk].end, toks[endk].end, ', ' + ghost + ');', ('spec', tplpath, c[2]), prio=-5))
+                rec.n_hints += 1
+                cnt('R14-forlift')
 
         for k in range(item.start, item.end):
             t = toks[k]
